@@ -861,6 +861,9 @@ class BaseConnector:
                 self._cleanup_closed_transports.append(transport)
             return
 
+        # (a stand-in protocol object handed out by a custom connector may not have it)
+        if (mark_idle := getattr(protocol, "mark_idle", None)) is not None:
+            mark_idle()
         self._conns[key].append((protocol, monotonic()))
 
         if self._cleanup_handle is None:
